@@ -9,6 +9,10 @@ for d in sorted(glob.glob("/verif/seeded/*/")):
     mm = re.search(r"(?is)(needs?[^\n]*manifest[^\n]*\n+)(.*?)(\n\n|\Z)", notes)
     sig = "; ".join(det.get("violations", [])[:3])
     verdict = "caught (concrete input)" if det.get("exit") == 1 and det.get("concrete") else ("caught (no-failing-input-found)" if det.get("exit") == 1 else "MISSED")
+    oth = m.get("detection_other")
+    if verdict == "MISSED" and oth and oth.get("concrete"):
+        verdict = "MISSED by its own check; caught (concrete input) by `" + oth["check"] + "`"
+        sig = "; ".join(oth.get("violations", [])[:3])
     rows.append(f"| {m['id']} | {m['property']} | {verdict} | {sig[:140]} |")
 table = "### 10.8 Seeded changes (from `seeded/*/meta.json`; regenerate with `harness/seedtable.py`)\n\n" \
         "Each change was written by an independent sub-agent that saw only the property text and a scratch worktree, compiles, keeps the\n" \
